@@ -155,7 +155,7 @@ func readSpecFile(path string) RoundSpec {
 func generated(a lib.Args) []RoundSpec {
 	r := lib.NewRng(a.Seed)
 	thorough := a.Tier == "thorough"
-	nDB, nProto := 30, 120
+	nDB, nProto := 30, 100
 	gs := []int{2, 8}
 	pgs := []int{2, 2, 3, 4, 8}
 	if thorough {
